@@ -37,6 +37,8 @@ func init() {
 			{ID: "C17-R12", Title: "string constants are JSON strings only when they are valid UTF-8", Floor: 1, Run: scriptStringsAreJSONStringsOnlyWhenUTF8},
 			{ID: "C17-R13", Title: "instruction words are not narrowed", Floor: 1, Run: instructionWordsNotNarrowed},
 			{ID: "C17-R14", Title: "function ids come from the compiler's counter", Floor: 1, Run: functionIDsFromTheCounter},
+			{ID: "C17-R15", Title: "stored numbers are taken at face value", Floor: 0, Run: storedNumbersAreTakenAtFaceValue},
+			{ID: "C17-R16", Title: "tables are found the way they are numbered", Floor: 1, Run: tablesAreFoundTheWayTheyAreNumbered},
 		},
 	})
 }
